@@ -234,6 +234,18 @@ def shard(ctx):
                 judge(ctx, {"input": q, "container": None, "scripting": bool(qi % 2)}, "family-" + fam)
                 if fam == "limits" and qi % 3 == 0:
                     judge(ctx, {"input": q, "container": ctxs[qi % len(ctxs)], "scripting": False}, "family-" + fam)
+    # form element pointer: set/cleared independently of whether the form is in scope
+    fpre = ["<form>", "<form id=a><table>", "<form id=a><object>", "<form><table><tr><td>", "<form><marquee>", "<form><applet>", "<form><table><caption>",
+            "<form><div>", "<form><p>", "<div><form>", "<form><svg><foreignObject>", "<form><button>", "<table><form>", "<form><select>", "<form></form>",
+            "<form><b>", "<form><table><tbody>", "<form><template>", "<form><li>", "<form><math><mi>"]
+    fmid = ["</form>", "", "</div>", "</p>", "</table>", "</object>", "<form>", "</form></form>", "</form></table>", "<table></form>"]
+    for pi, pre in enumerate(fpre):
+        for qi, mid in enumerate(fmid):
+            k += 1
+            if ctx.mine(k):
+                judge(ctx, {"input": pre + mid + "<form id=b>x</form>y<input>", "container": None, "scripting": False}, "family-form-pointer")
+                judge(ctx, {"input": pre + mid + "<form id=b>x</form>y<input>", "container": ("div", "form", "td", "table")[(pi + qi) % 4], "scripting": False},
+                      "family-form-pointer")
     fpr = FRAMESET_PROBES + [x for x in pr if x.startswith("<") and not x.startswith("</")]
     for pi, pre in enumerate(FRAMESET_PREFIXES):
         for qi, q in enumerate(fpr):
@@ -246,7 +258,7 @@ def shard(ctx):
                         judge(ctx, {"input": pre + q + closer + FRAMESET_SUFFIX, "container": None, "scripting": False}, "family-frameset-ok")
     # every fragment context x a small probe set (reset-the-insertion-mode and tokenizer start state per context)
     small = ["x", " x ", "<td>x", "<tr><td>x", "<option>x", "</select>x", "<b>x</p>y", "<svg><p>x", "<table><td>x", "<col>", "<caption>x", "<frame>",
-             "<frameset>", "</body>x", "</html>x", "<head>x", "<body a=b>x", "<html a=b>x", "<form>x", "&amp;</title>x", "<!--c-->", "\x00x"]
+             "<frameset>", "</body>x", "</html>x", "</html><!--c-->", "</body><!--c-->", "</body></html><!--c-->x", "</html> <!--c--> <p>", "<head>x", "<body a=b>x", "<html a=b>x", "<form>x", "&amp;</title>x", "<!--c-->", "\x00x"]
     for ci, cont in enumerate(ctxs):
         for qi, q in enumerate(small):
             k += 1
